@@ -38,7 +38,7 @@ CWD = '/w'
 HOME = '/home/u'
 # ways of placing "INC" (an include of all documents) below a key; path = where the merged content must appear
 UNDER_SHAPES = ['key', 'deep', 'merge_anc', 'del_anc', 'force_anc', 'weak_anc', 'in_list', 'merge_list', 'multidoc', 'deep_multidoc',
-                'rec', 'rec_deep', 'rec']
+                'rec', 'rec_deep', 'rec', 'call_arg', 'call_arg_deep']
 _UNDER = {
     'key': ('{wrapped: INC}', ['wrapped']),
     'deep': ('{outer: {mid: {wrapped: INC}}}', ['outer', 'mid', 'wrapped']),
@@ -50,6 +50,9 @@ _UNDER = {
     'merge_list': ('{lst: !merge [INC, 1]}', ['lst', 0]),
     'multidoc': ('{wrapped: INC}', ['wrapped']),
     'deep_multidoc': ('{outer: !merge {mid: [INC]}}', ['outer', 'mid', 0]),
+    # below the arguments of a call (the target returns what it received)
+    'call_arg': ('{fn: !call:simrec.echo {wrapped: INC}}', ['fn', 'wrapped']),
+    'call_arg_deep': ('{fn: !call:simrec.echo {a: {wrapped: INC}, b: 1}}', ['fn', 'a', 'wrapped']),
     # the lazy include: files are read (and looked up) when the node is evaluated
     'rec': ('{wrapped: REC}', ['wrapped']),
     'rec_deep': ('{outer: {mid: {wrapped: REC}}}', ['outer', 'mid', 'wrapped']),   # (!rec inside a list is not supported by the library)
@@ -454,7 +457,9 @@ def _child(files, calls, fs_faults, pre_calls, entry='builder'):
                 out['paths'] = paths
                 out['cfg'] = observe.native(_mask_paths(cfg))
                 raise _Done()
+            fs.cwd = '/w/where_the_builder_was_created'      # the working directory that counts is the one at lookup time
             b = _custom_builder(Builder)()
+            fs.cwd = CWD
             for c in pre_calls:
                 try:
                     add(b, c)
